@@ -288,6 +288,58 @@ func (g *gateX) stepOrder(fd *ast.FuncDecl) []string {
 	return out
 }
 
+// perRequestFromTransport recognises the repaired shape of the per-request version check in handle:
+//
+//	transportVersions := ss.supportedVersions            (inside the ss.mu section)
+//	if transportVersions == nil { transportVersions = supportedProtocolVersions }
+//	acceptedVersions := transportVersions
+//	if req.Method == methodDiscover { acceptedVersions = supportedProtocolVersions }
+//	if validatedMeta.usesNewProtocol && !slices.Contains(acceptedVersions, …ProtocolVersion) { … Supported: transportVersions … }
+func (g *gateX) perRequestFromTransport(handle *ast.FuncDecl) bool {
+	if handle == nil {
+		return false
+	}
+	c := g.c
+	var steps []string
+	for _, st := range handle.Body.List {
+		switch x := st.(type) {
+		case *ast.AssignStmt:
+			steps = append(steps, c.Src(x))
+		case *ast.IfStmt:
+			body := ""
+			for _, b := range x.Body.List {
+				body += c.Src(b) + ";"
+			}
+			if strings.Contains(c.Src(x.Cond), "slices.Contains") {
+				// the unsupported-version answer: keep only the list that is sent
+				body = ""
+				ast.Inspect(x.Body, func(n ast.Node) bool {
+					if kv, ok := n.(*ast.KeyValueExpr); ok && c.Src(kv.Key) == "Supported" {
+						body = "Supported: " + c.Src(kv.Value)
+					}
+					return true
+				})
+			}
+			steps = append(steps, "if "+c.Src(x.Cond)+" {"+body+"}")
+		}
+	}
+	want := []string{
+		"transportVersions := ss.supportedVersions",
+		"if transportVersions == nil {transportVersions = supportedProtocolVersions;}",
+		"acceptedVersions := transportVersions",
+		"if req.Method == methodDiscover {acceptedVersions = supportedProtocolVersions;}",
+		"if validatedMeta.usesNewProtocol && !slices.Contains(acceptedVersions, validatedMeta.initializeParams.ProtocolVersion) {Supported: transportVersions}",
+	}
+	i := 0
+	for _, s := range steps {
+		s = strings.Join(strings.Fields(s), " ")
+		if i < len(want) && s == want[i] {
+			i++
+		}
+	}
+	return i == len(want)
+}
+
 func (g *gateX) run() {
 	c := g.c
 	server := g.table("serverMethodInfos", "newServerMethodInfo")
@@ -689,6 +741,11 @@ func (g *gateX) run() {
 	fmt.Fprintf(b, "def metaInvalidClientInfo : Int := %s\ndef metaInvalidCapabilities : Int := %s\n", pick(me, 0, "validateRequestMeta"), pick(me, 1, "validateRequestMeta"))
 	fmt.Fprintf(b, "/-- mcp/transport.go `canceller.Preempt`: true when only notifications (requests without id) are inspected -/\n")
 	fmt.Fprintf(b, "def preemptNotificationsOnly : Bool := %v\n", strings.Contains(preemptCond, "!req.IsCall()"))
+	// ServerSession.handle, the per-request version check (F34): which list is tested and which is sent.
+	// true: the list tested is `acceptedVersions` = the transport's versions (ss.supportedVersions read under
+	// ss.mu, SDK list when nil) except for server/discover (SDK list), and `Supported:` is the transport's list.
+	fmt.Fprintf(b, "/-- mcp/server.go `ServerSession.handle`: the per-request `_meta` version is tested against the transport's versions (any SDK version for the server/discover probe) and -32022 carries the transport's versions -/\n")
+	fmt.Fprintf(b, "def perRequestVersionsFromTransport : Bool := %v\n", g.perRequestFromTransport(handle))
 	b.WriteString("\nend Generated.Gate\n")
 	c.Lean["GateGen"] = b.String()
 }
